@@ -91,7 +91,8 @@ PROG_KINDS = {
     "C11": [("calls", "flow"), ("args", "flow"), ("results", "flow"), ("deps", None), ("order", "flow"), ("cancel", "flow")],
     "C13": [("static.parses", None), ("static.typechecks", None), ("static.directives", None), ("toolpanic", None)],
     "C14": [("accept", None), ("diag", None)],
-    "C15": [("evalorder", None)],
+    "C12": [("evalgoroutine", None), ("oncaller", None)],
+    "C15": [("evalorder", None), ("evalgoroutine", None), ("static.hygiene", None)],
     "C16": [("static.astdiff", None)],
     "C17": [("static.deterministic", None)],
     "C18": [("events", None)],
@@ -102,7 +103,7 @@ TEXT_KINDS = {
     "C16": ["bt.", "gf.", "fs.", "dt.others", "x.BT", "x.GF"],
     "C17": ["dt.nondeterministic", "dt.alone", "dt.sequence", "dt.exit", "x.DT"],
     "C18": ["es.", "x.ES"],
-    "C20": ["sm.", "x.SM"],
+    "C20": ["sm.", "x.SM", "mn.", "x.MN"],
 }
 
 
@@ -268,7 +269,11 @@ def check_race(pid, tier):
            "rule": "every scenario of the scheduler harness (incl. early return on failure/cancel while jobs still run) and every scenario of generated programs executed in binaries built with -race; a report is a violation",
            "samples": [{"scheduler_scenarios_under_race": res["sched_scenarios"], "program_scenarios_under_race": res["prog_scenarios"]}],
            "race_reports": res["sched_reports"] + res["prog_races"]}
-    return finish(pid, tier, "proof", viol, [], cov, ASSUME_S + ["partial: the theorems establish the ownership discipline of the model; 'therefore no data race' rests on the Go memory model (trusted) and on the race detector as the search"], time.time() - t0)
+    # ownership observations of the program differential (which goroutine evaluated / ran what)
+    v2, k2, c2 = prog_part(pid, tier)
+    viol += v2
+    cov.update({k: v for k, v in c2.items() if k.startswith("prog")})
+    return finish(pid, tier, "proof", viol, k2, cov, ASSUME_S + ["partial: the theorems establish the ownership discipline of the model; 'therefore no data race' rests on the Go memory model (trusted) and on the race detector as the search"], time.time() - t0)
 
 
 DISPATCH = {p: check_sched_plus for p in S.PROPS}
